@@ -177,8 +177,13 @@ func cmdVerify(args []string) int {
 	}
 	// the callees whose contracts those proofs rest on are verified in the same run (everything they export)
 	coneN := 0
+	verified := map[string]bool{}
+	for _, k := range keys {
+		verified[k] = true
+	}
 	if *prop != "" && *prop != "C09" && *fn == "" && !*noCone {
 		for _, k := range w.cone(keys) {
+			verified[k] = true
 			rep := eng.verifyFunc(w.Funcs[k])
 			rep.Key = k
 			reports = append(reports, rep)
@@ -234,6 +239,25 @@ func cmdVerify(args []string) int {
 				continue
 			}
 			all = append(all, o)
+		}
+		// the refinement argument rests on the implementation's own contract: verify it (and what it calls) in this run
+		if *prop != "" && *fn == "" && !*noCone && rp.Impl.Contract != nil && !rp.Impl.Contract.Trusted {
+			extra := append([]string{rp.Impl.Key}, w.cone([]string{rp.Impl.Key})...)
+			for _, k := range extra {
+				if verified[k] {
+					continue
+				}
+				verified[k] = true
+				r2 := eng.verifyFunc(w.Funcs[k])
+				reports = append(reports, r2)
+				for _, o := range r2.Obls {
+					if strings.Contains(o.Name, "/guarantees") || strings.HasPrefix(o.Kind, "frame") || o.Kind == "confinement" {
+						continue
+					}
+					o.Cone = true
+					all = append(all, o)
+				}
+			}
 		}
 	}
 	// lemmas used by the selected functions (or all lemmas when no filter)
@@ -435,6 +459,53 @@ func cmdVerify(args []string) int {
 				fmt.Printf("VIOLATION property=%s replay=%s\n", pid, path)
 			}
 		}
+	}
+	// thorough tier: runtime assertion checking of the same contracts on the real code. Every function of the property
+	// (not the cone) is run on generated inputs and its requires/ensures/offers/guarantees are evaluated by the
+	// embedded interpreter; a clause that fails on a concrete input although its proof went through would mean the
+	// verifier's model departs from the code (reals vs floats beyond the tolerance, a wrong stage contract, ...).
+	if *tier == "thorough" && *prop != "" && *prop != "C03" && *prop != "C09" && *fn == "" {
+		var rkeys []string
+		for _, k := range keys {
+			rkeys = append(rkeys, k)
+		}
+		n := 300
+		evaluated, funcs := 0, 0
+		for _, r := range replayAll(w, rkeys, n, seed, 8) {
+			if !r.Supported {
+				continue
+			}
+			funcs++
+			evaluated += r.Evaluated
+			fi := w.Funcs[r.Function]
+			for _, f := range r.Failures {
+				if isKnownObl(f.Label) {
+					continue
+				}
+				if f.Kind == "leak" && fi != nil && fi.Contract != nil && len(fi.Contract.byKind("borrows", "")) > 0 {
+					continue // a borrowing stage leaves the rest of its input to its caller by contract
+				}
+				// only clauses of this property (unlabelled kinds hang/leak/panic count for every property)
+				if f.Kind == "ensures" || f.Kind == "offers" || f.Kind == "guarantees" || f.Kind == "requires" {
+					tagged := false
+					if fi != nil && fi.Contract != nil {
+						for _, cl := range fi.Contract.Clauses {
+							if cl.Where == f.Clause && (len(cl.Tags) == 0 || hasTag(cl.Tags, *prop)) {
+								tagged = true
+							}
+						}
+					}
+					if !tagged {
+						continue
+					}
+				}
+				violations++
+				path := writeReplay(*replayDir, pid, r.Function+"_runtime-"+f.Kind, map[string]interface{}{"obligation": r.Function + "/runtime/" + f.Label, "failing_input": map[string]interface{}{"function": r.Function, "kind": f.Kind, "clause_text": f.Text, "config": f.Config, "inputs": f.Inputs, "observed_outputs": f.Outputs, "witness": f.Witness}})
+				fmt.Printf("VIOLATION property=%s replay=%s\n", pid, path)
+				break
+			}
+		}
+		bounded = append(bounded, map[string]interface{}{"label": "bounded", "what": "runtime assertion checking (thorough tier): the contracts of the property's functions evaluated on the real code for generated inputs; complements the proofs, not counted as proved", "functions": funcs, "cases_evaluated": evaluated, "cases_per_function": n})
 	}
 	if *prop == "C03" && *fn == "" {
 		var keys []string
